@@ -43,6 +43,11 @@ def extract(repo):
     c["possi_cases"] = pc                       # [[':'], [blank ( [ <], [, | 0]]
     c["multiarch_stop"] = sorted(sum(cases(func_body(parser, "parseMultiarch")), []))
     c["controllers_cases"] = cases(func_body(parser, "parsePossibilityControllers"))
+    # the four clause loops: which bytes end the clause with an error, which close it
+    c["number_cases"] = cases(func_body(parser, "parsePossibilityNumber"))
+    c["arch_cases"] = cases(func_body(parser, "parsePossibilityArch"))
+    c["stage_cases"] = cases(func_body(parser, "parsePossibilityStage"))
+    c["substvar_cases"] = cases(func_body(parser, "parseSubstvar"))
     arb = func_body(ar, "parseArEntry")
     cols = [(int(a), int(b)) for a, b in re.findall(r"line\[(\d+):(\d+)\]", arb)]
     c["ar_columns"] = sorted(set(cols))
@@ -70,6 +75,10 @@ def render(c):
              "Definition possi_cases : list (list N) := [%s]." % "; ".join(coq_list(x) for x in c["possi_cases"]),
              "Definition multiarch_stop : list N := %s." % coq_list(c["multiarch_stop"]),
              "Definition controllers_cases : list (list N) := [%s]." % "; ".join(coq_list(x) for x in c["controllers_cases"]),
+             "Definition number_cases : list (list N) := [%s]." % "; ".join(coq_list(x) for x in c["number_cases"]),
+             "Definition arch_cases : list (list N) := [%s]." % "; ".join(coq_list(x) for x in c["arch_cases"]),
+             "Definition stage_cases : list (list N) := [%s]." % "; ".join(coq_list(x) for x in c["stage_cases"]),
+             "Definition substvar_cases : list (list N) := [%s]." % "; ".join(coq_list(x) for x in c["substvar_cases"]),
              "Definition ar_columns : list (N * N) := [%s]." % "; ".join("(%d, %d)" % p for p in c["ar_columns"]),
              "Definition ar_magic : list (N * N) := [%s]." % "; ".join("(%d, %d)" % p for p in c["ar_magic"]),
              "Definition ar_header_len : list N := %s." % coq_list(c["ar_header_len"]),
